@@ -18,6 +18,7 @@ RULE = ('random treebanks (1..8 trees, 1..40 tokens, gap degree 0..n/2, unary '
 ASSUMPTIONS = ['vt/lcfrs.py ref_rule: set-based rule of a node (labels by '
                'least token, blocks = maximal runs)']
 WATCHDOG = {'quick': 600, 'thorough': 3600}
+LONG_SENTENCES = 3      # floor for the stratum the runner adds (gen.maybe_long)
 MIN = {'quick': {'distinct': 300,
                  'hooks': {'grammar.extract': 3000,
                            'grammaranalysis.fan_out': 3000},
@@ -152,6 +153,7 @@ def make_bank(rng, quick):
             continue
         n = rng.choice([1, 2, 3, 4, 6, 9]) if rng.random() < 0.6 \
             else rng.randint(1, 16 if quick else 40)
+        n = gen.maybe_long(rng, n, 0.002)
         bank.append(gen.tree(rng, n, pools, max_arity=rng.choice([2, 3, 5, 8]),
                              p_unary=rng.choice([0, 0.15, 0.3]),
                              moves=rng.choice([0, 0, 1, 2, 3, 6]),
